@@ -116,6 +116,13 @@ def judge_static(case, out):
         if identity in pinned.IMPLEMENTED:
             out.bad("pinned-identity-undefined", f"{identity} has no payload definition any more")
         return
+    if identity.startswith("4076_") and identity not in pinned.IMPLEMENTED:
+        # IGS SSR v1 (the version the property names) is a closed list: GNSS blocks 20..120 x
+        # IGM01-07 and 201; a definition under any other sub-type specifies bits the standard does not
+        out.bad("igs-subtype-not-in-ssr-v1",
+                f"{identity} has a payload definition, but IGS SSR v1 defines no sub-type "
+                f"{identity[5:]} (defined: 021-027, 041-047, 061-067, 081-087, 101-107, 121-127, 201)")
+        return
     static_walk(identity, pdict, fields, out)
     if out.violations:
         return
